@@ -58,6 +58,16 @@ def tasks(tier, seed):
     return out
 
 
+def env_tasks(tier, seed):
+    """What is repeated in an interpreter started with other flags (-bb), with
+    and without debug logging: the liberties that reach rarely used decode
+    paths (raw bytes for non-UTF-8 long strings, unknown-on-send values...)."""
+    pick = [('wide',), ('payloads',), ('strings',), ('unsorted',),
+            ('timestamps',), ('headers',), ('invalid-on-send',), ('nested',)]
+    pick += [('methods', m.name) for m in spec_table.METHODS]
+    return pick + [('debug-logging',) + t for t in pick]
+
+
 def raw_table(items):
     body = b''
     for key, vb in items:
@@ -174,6 +184,9 @@ def fits(tag, n):
 
 
 def run(task, ctx):
+    if task[0] == 'debug-logging':
+        with lib.debug_logging():
+            return run(task[1:], ctx)
     kind = task[0]
     if kind == 'tag8':
         for b in range(256):
